@@ -703,6 +703,7 @@ func init() {
 		registerReplay("C05/concurrent", runLifeWorkload)
 		registerReplay("C05/notify-race", runNotifyRaceCase)
 		registerReplay("C05/sessions", func(c seqCase) *fail { c.Life = true; return runSeqCase(c, nil) })
+		registerReplay("C05/xattr-chains", func(c seqCase) *fail { c.Life = true; return runSeqCase(c, nil) })
 		registerReplay("C05/path-sessions", func(c pathCase) *fail { c.Life = true; return runPathCase(c, nil) })
 		registerReplay("C05/cuts", func(c cutCase) *fail { return runCutCase(c, nil) })
 		registerReplay("C05/clunk-race", runRaceCase)
@@ -750,6 +751,44 @@ func TestC05(t *testing.T) {
 			h.Sample("sessions", c)
 		}
 		return f
+	})
+	// chains of attribute fids (an attribute fid made from an attribute fid ...),
+	// released in every order while others stay in use
+	rapidCases(h, "xattr-chains", env.PerShard(env.Pick(2400, 60000)), func(rt *rapid.T) seqCase {
+		c := seqCase{Native: rapid.Bool().Draw(rt, "native"), Prefix: 0, Life: true}
+		c.Reqs = append(c.Reqs, c04Prefixes[1]...)
+		src := uint64(rapid.SampledFrom([]int{1, 2}).Draw(rt, "src"))
+		fids := []uint64{src}
+		n := rapid.IntRange(2, 4).Draw(rt, "chain")
+		for i := 0; i < n; i++ {
+			from := fids[len(fids)-1]
+			if i > 0 && rapid.IntRange(0, 3).Draw(rt, "branch") == 0 {
+				from = rapid.SampledFrom(fids).Draw(rt, "from")
+			}
+			nf := uint64(10 + i)
+			c.Reqs = append(c.Reqs, tXattrwalk(from, nf, rapid.SampledFrom([]string{"user.a", "", "user.a"}).Draw(rt, "xn")))
+			fids = append(fids, nf)
+		}
+		for i := rapid.IntRange(2, 10).Draw(rt, "tail"); i > 0; i-- {
+			f := rapid.SampledFrom(fids).Draw(rt, "f")
+			switch rapid.IntRange(0, 5).Draw(rt, "op") {
+			case 0, 1, 2:
+				c.Reqs = append(c.Reqs, tClunk(f))
+			case 3:
+				c.Reqs = append(c.Reqs, tRead(f, 0, 2))
+			case 4:
+				c.Reqs = append(c.Reqs, tGetattr(f))
+			default:
+				c.Reqs = append(c.Reqs, tWalk(f, uint64(20+i)))
+			}
+		}
+		return c
+	}, func(c seqCase) *fail {
+		h.Case(seqHash(c), true, "xattr-chains")
+		if h.WantSample("xattr-chains") {
+			h.Sample("xattr-chains", c)
+		}
+		return runSeqCase(c, nil)
 	})
 	rapidCases(h, "path-sessions", env.PerShard(env.Pick(6000, 100000)), func(rt *rapid.T) pathCase {
 		c := pathCase{Conns: rapid.IntRange(1, 2).Draw(rt, "conns"), Native: rapid.Bool().Draw(rt, "native"), Tree: "deep", Life: true}
